@@ -1041,7 +1041,7 @@ static int checkSignatureInternals(KSI_CTX *ctx, KSI_Signature *sig) {
 
 	/* If there is no calendar chain, there can not be a calendar auth record nor a publication record. */
 	if (sig->calendarChain == NULL && (sig->calendarAuthRec != NULL || sig->publication != NULL)) {
-		KSI_pushError(ctx, KSI_INVALID_FORMAT, "Calendar auth record or publication record may not be specified if the calendar chain is missing.");
+		KSI_pushError(ctx, res = KSI_INVALID_FORMAT, "Calendar auth record or publication record may not be specified if the calendar chain is missing.");
 		goto cleanup;
 	}
 
